@@ -28,7 +28,3 @@ Definition chk_fit (bias : bool) (lam : Q) (w din dout : nat) (Xs Ys : list (lis
       && mclose (run dout Wm bm Xtest) pred_obs
       && mclose (run dout Wout_obs b_obs Xtest) pred_obs
   end.
-
-(* a sequence not longer than the warm-up: the library raised ValueError; the model returns None *)
-Definition chk_fit_error (bias : bool) (lam : Q) (w din dout : nat) (Xs Ys : list (list (list Q))) : bool :=
-  match fit (F:=Q) qsolve_tot bias lam w din dout Xs Ys with None => true | Some _ => false end.
